@@ -1026,8 +1026,14 @@ namespace avel {
         auto exponent_field = _mm256_and_si256(_mm256_set1_epi32(float_exponent_mask_bits), bits);
         vec8x32i arg_exponent{_mm256_srli_epi32(exponent_field, 23)};
 
+        // Every exponent beyond this magnitude saturates (zero or infinity); clamping first keeps the
+        // subtractions below from wrapping around for exponents near the ends of the integer range
+        exp = clamp(exp, vec8x32i{-300}, vec8x32i{+300});
+
         // Perform two multiplications such that they should never lead to lossy rounding
-        vec8x32i lower_bound0{vec8x32i{1} - arg_exponent};
+        // Keep both halves of the exact scaling step within the exponent range of a normal multiplier:
+        // the lower bound is one above the smallest normal exponent, and never below -252 (infinities and NaNs)
+        vec8x32i lower_bound0 = max(vec8x32i{2} - arg_exponent, vec8x32i{-252});
         vec8x32i upper_bound0{vec8x32i{254} - arg_exponent};
 
         vec8x32i extracted_magnitude = clamp(exp, lower_bound0, upper_bound0);
